@@ -182,7 +182,7 @@ class Rpms(productmd.common.MetadataBase):
         if category == "source" and srpm_nevra is not None:
             raise ValueError("Expected blank srpm_nevra for source package: %s" % nevra)
 
-        if category != "source" and srpm_nevra is None:
+        if category != "source" and not srpm_nevra:
             raise ValueError("Missing srpm_nevra for package: %s" % nevra)
 
         if (category == "source") != (nevra_dict["arch"] in ("src", "nosrc")):
